@@ -3,6 +3,7 @@ package main
 import (
 	"errors"
 	"fmt"
+	"time"
 
 	"github.com/veraison/eat"
 	psatoken "github.com/veraison/psatoken"
@@ -28,13 +29,16 @@ type ClaimsDesc struct {
 	InstID    *HexBytes `json:"inst,omitempty"`
 	VSI       *string   `json:"vsi,omitempty"`
 	Extra     *int64    `json:"extra,omitempty"`
-	Wide      []int     `json:"wide,omitempty"` // xw: which of the 20 extra claims are present
-	XSw       bool      `json:"xsw,omitempty"`  // components are of the sim type whose encoder can fail
+	Wide      []int     `json:"wide,omitempty"`  // xw: which of the 20 extra claims are present
+	Stamp     *int64    `json:"stamp,omitempty"` // xw: a time claim (seconds), encoded with a CBOR tag
+	XSw       bool      `json:"xsw,omitempty"`   // components are of the sim type whose encoder can fail
 	// Defects lists what was deliberately broken (informational).
 	Defects []string `json:"defects,omitempty"`
 }
 
 type SwDesc struct {
+	// Nil: the list entry is a typed nil (*SwComponent)(nil) / a CBOR null
+	Nil     bool      `json:"nil,omitempty"`
 	MType   *string   `json:"mt,omitempty"`
 	MVal    *HexBytes `json:"mv,omitempty"`
 	Version *string   `json:"ver,omitempty"`
@@ -201,6 +205,10 @@ func genValidClaims(r *Rng, prof string) ClaimsDesc {
 		k := r.Range(10, 20)
 		perm := r.Perm(20)
 		d.Wide = append([]int{}, perm[:k]...)
+		if r.Chance(1, 2) {
+			t := int64(1600000000 + r.Intn(1<<27))
+			d.Stamp = &t
+		}
 	}
 	if prof != "p1" && prof != "xp1" && r.Chance(1, 6) {
 		d.XSw = true
@@ -368,6 +376,10 @@ func genInvalidClaims(r *Rng, prof string) ClaimsDesc {
 func encodeSwList(sw []SwDesc) []byte {
 	out := encodeHead(4, uint64(len(sw)))
 	for _, c := range sw {
+		if c.Nil {
+			out = append(out, 0xf6)
+			continue
+		}
 		n := 0
 		var body []byte
 		add := func(key uint64, val []byte) {
@@ -425,6 +437,10 @@ func buildSwComponent(c SwDesc) *psatoken.SwComponent {
 func swToIface(sw []SwDesc) []psatoken.ISwComponent {
 	out := make([]psatoken.ISwComponent, len(sw))
 	for i, c := range sw {
+		if c.Nil {
+			out[i] = (*psatoken.SwComponent)(nil)
+			continue
+		}
 		out[i] = buildSwComponent(c)
 	}
 	return out
@@ -618,6 +634,10 @@ func (d *ClaimsDesc) buildRaw() (psatoken.IClaims, error) {
 			return nil, err
 		}
 		x := &XWClaims{P2Claims: *b}
+		if d.Stamp != nil {
+			t := time.Unix(*d.Stamp, 0).UTC()
+			x.Stamp = &t
+		}
 		ws := x.wide()
 		for _, i := range d.Wide {
 			if i >= 0 && i < len(ws) {
@@ -680,6 +700,10 @@ func (d *ClaimsDesc) buildViaSetters() (out psatoken.IClaims, oerr error) {
 		}
 	}
 	if xw, ok := c.(*XWClaims); ok {
+		if d.Stamp != nil {
+			t := time.Unix(*d.Stamp, 0).UTC()
+			xw.Stamp = &t
+		}
 		ws := xw.wide()
 		for _, i := range d.Wide {
 			if i >= 0 && i < len(ws) {
